@@ -163,6 +163,62 @@ def run(ctx: Ctx):
             ok = ast.unparse(s.arg("objective")) == "modularity" and "for comm in communities:" in t and "communities = [c for c in comm_nodes.values() if c]" in t
             ctx.ob("C15-O3", "R5 PAIRING", lou, "reported modularity is a fold over the returned communities (all non-empty member sets)", ok, "", node=s.call)
 
+    # the null-model term is linear in `resolution` wherever it is used (gain of a move, gain of staying, final modularity)
+    def depends_on_resolution(e, depth=0):
+        for x in ast.walk(e):
+            if isinstance(x, ast.Name):
+                if x.id == "resolution":
+                    return True
+                if depth < 4:
+                    ds = [d.value for d in own_nodes(lou.node) if isinstance(d, ast.Assign) and len(d.targets) == 1 and ast.unparse(d.targets[0]) == x.id]
+                    if len(ds) == 1 and depends_on_resolution(ds[0], depth + 1):
+                        return True
+        return False
+
+    def res_degree(e, depth=0):
+        """degree of the polynomial `e` in `resolution` (through single-definition locals)"""
+        if isinstance(e, ast.Name):
+            if e.id == "resolution":
+                return 1
+            if depth < 4:
+                ds = [d.value for d in own_nodes(lou.node) if isinstance(d, ast.Assign) and len(d.targets) == 1 and ast.unparse(d.targets[0]) == e.id]
+                if len(ds) == 1 and depends_on_resolution(ds[0], depth + 1):
+                    return res_degree(ds[0], depth + 1)
+            return 0
+        if isinstance(e, ast.BinOp):
+            a, b = res_degree(e.left, depth), res_degree(e.right, depth)
+            if isinstance(e.op, ast.Mult):
+                return a + b
+            if isinstance(e.op, (ast.Div, ast.FloorDiv)):
+                return a - b
+            if isinstance(e.op, ast.Pow) and isinstance(e.right, ast.Constant) and isinstance(e.right.value, int):
+                return a * e.right.value
+            return max(a, b)
+        if isinstance(e, ast.UnaryOp):
+            return res_degree(e.operand, depth)
+        if isinstance(e, ast.Call):
+            return max([res_degree(a, depth) for a in e.args] + [0])
+        return 0
+
+    def terms(e):
+        if isinstance(e, ast.BinOp) and isinstance(e.op, (ast.Add, ast.Sub)):
+            return terms(e.left) + terms(e.right)
+        return [e]
+
+    n_null = 0
+    for n in own_nodes(lou.node):
+        tgt = val = None
+        if isinstance(n, ast.Assign) and ast.unparse(n.targets[0]) in ("gain", "stay_gain"):
+            tgt, val = ast.unparse(n.targets[0]), n.value
+        elif isinstance(n, ast.AugAssign) and ast.unparse(n.target) == "modularity":
+            tgt, val = "modularity", n.value
+        if val is None:
+            continue
+        degs = [res_degree(t_) for t_ in terms(val)]
+        n_null += 1
+        ctx.ob("C15-O3", "R4 SIGN-UNIT", lou, f"`{tgt}`: the null-model term is linear in the resolution parameter, the edge term does not depend on it", sorted(degs) == [0, 1], f"degrees in `resolution` of the terms of `{ast.unparse(val)[:70]}`: {degs} (modularity is e_c/m - resolution*(d_c/2m)^2; a squared or missing factor is invisible at the default resolution 1)", node=n)
+    ctx.floor("louvain null-model expressions", n_null, 3)
+
     # ---- O4 PageRank
     cfg = cfg_of(pr.node)
     gv = GuardView(cfg)
@@ -238,6 +294,20 @@ def _v_kcore_gt(tree):
     M.replace_expr(g, lambda e: M.src_is(e, "core >= k"), M.expr("core > k"))
 
 
+def _v_louvain_null_scale(tree):
+    g = M.find_func(tree, "louvain")
+    M.replace_stmt(g, lambda s: isinstance(s, ast.AnnAssign) and M.src_has(s.target, "node_to_comm"), lambda s: M.stmts("null_scale = resolution / (2 * total_weight)") + [s])
+    M.replace_expr(g, lambda e: M.src_is(e, "resolution * (comm_deg / (2 * total_weight)) ** 2"), M.expr("(comm_deg * null_scale) ** 2"))
+
+
+def _t_louvain_null_scale(tree):
+    """equally valid: hoisted factor used linearly"""
+    g = M.find_func(tree, "louvain")
+    M.replace_stmt(g, lambda s: isinstance(s, ast.AnnAssign) and M.src_has(s.target, "node_to_comm"), lambda s: M.stmts("null_scale = resolution / (2 * total_weight)") + [s])
+    M.replace_expr(g, lambda e: M.src_is(e, "resolution * v_degree * sigma_c / (2 * total_weight)"), M.expr("v_degree * sigma_c * null_scale"))
+    M.replace_expr(g, lambda e: M.src_is(e, "resolution * (comm_deg / (2 * total_weight)) ** 2"), M.expr("null_scale * comm_deg ** 2 / (2 * total_weight)"))
+
+
 def _v_louvain_degree(tree):
     g = M.find_func(tree, "louvain")
     M.replace_stmt(g, lambda s: M.src_is(s, "comm_degree[best_comm] += v_degree"), [])
@@ -276,6 +346,8 @@ VARIANTS = [
     M.Variant("k-core neighbour sometimes left out of every bucket", KC, _v_kcore_no_remove, "C15-O2"),
     M.Variant("kcore(k) uses a strict threshold", KC, _v_kcore_gt, "C15-O2"),
     M.Variant("louvain forgets to add the degree to the new community", CM, _v_louvain_degree, "C15-O3"),
+    M.Variant("louvain squares the hoisted resolution factor in the final modularity (seed C15-D)", CM, _v_louvain_null_scale, "C15-O3"),
+    M.Variant("twin: louvain hoists resolution/(2m) and uses it linearly", CM, _t_louvain_null_scale, None),
     M.Variant("pagerank reports convergence on the last iteration regardless", PR, _v_pagerank_verdict, "C15-O4"),
     M.Variant("pagerank counts links to unknown nodes", PR, _v_pagerank_nofilter, "C15-O1"),
     M.Variant("twin: reformat articulation", AR, _t_reformat, None),
